@@ -22,6 +22,10 @@ var verifC29Programs = [...]string{
 	`case $X in a*) echo A;; *) echo other;; esac; [[ $X == a* ]] && echo m; (( n = 1 + 2 )); echo $n $((n++)) ${#X} ${X/a/b}`,
 	`declare -n r=v; r=$X; declare -i i=1+1; local_fn() { local -a la=($X); la[3]=$X; echo ${la[@]}; }; local_fn; echo $v $i`,
 	`set -- $X "$X" {a,b}; shift; echo "$@"; IFS=:; echo $*; read p q <<< "$X"; echo "$p|$q"`,
+	`declare $X; local $X 2>/dev/null; export $X; readonly $X x$X; typeset -i $X; f() { local $1 "$@"; echo $a; }; f $X a=1; declare a$X=b; echo $a`,
+	`kv="p=1 $X"; export $kv; declare -a arr; arr+=($X); arr[1]=$X; unset "arr[$X]" 2>/dev/null; echo ${arr[@]} $p`,
+	`for w in $X a{1,$X}; do echo $w; done; select s in $X; do break; done <<< 1; case $X in $X) echo same;; esac; [[ -n $X && $X == $X ]]; echo $(( ${#X} + 1 ))`,
+	`echo ${X:-$X} ${X:+a$X} ${X/$X/y} ${X#a} ${X%%b*} ${X:1:2} ${!X} ${X@Q} ${X^^}; echo "$(echo $X)" <<< $X; cat < /dev/null > /dev/null 2> /dev/null`,
 }
 
 type verifFrozenEnv struct {
